@@ -144,7 +144,9 @@ def main(argv: Optional[List[str]] = None) -> int:
         repo = Repo(args.repo)
         ctx = Ctx(repo, pid, args.tier, seed)
         mod.run(ctx)
-        ctx.check_floors()
+        if not ctx.findings:
+            # instance floors guard against a vacuous pass; a run that has findings reports them
+            ctx.check_floors()
     except AnalysisError as e:
         print(f"ANALYSIS-ERROR property={pid} {e}")
         _evidence_on_error(pid, args, seed, t0, str(e))
